@@ -310,6 +310,16 @@ class Ctx:
             # clause kinds this contract does not claim (served by the bounded stand-in only); counted, never registered
             self.tier_b_skipped = getattr(self, "tier_b_skipped", 0) + 1
             return
+        tbs = self.contract.options.get("tier_b_sites")
+        if tbs and isinstance(node, ast.AST):
+            try:
+                src = ast.unparse(node)
+            except Exception:
+                src = ""
+            if any(kind == k and frag in src for k, frag in tbs):
+                # a single site this contract does not claim (it depends on a fact the contract does not establish); counted, never registered
+                self.tier_b_skipped = getattr(self, "tier_b_skipped", 0) + 1
+                return
         ln = getattr(node, "lineno", None)
         col = getattr(node, "col_offset", None)
         base = "%s.%s%s@%s:%s" % (self.cur_func, kind, ("." + detail) if detail else "", ln, col)
